@@ -98,8 +98,10 @@ def ele_faults(seg, e, sub_of=None):
         out.append(('impossible-date', None, '8', False))      # value chosen from the carrier's qualifier
     if e.codes and not e.ext:
         v = None
-        for cand in ('Z', 'Q', 'X9', 'ZZ', 'QQ', 'ZZZ', 'QQQ', 'ZZZZ', 'ZZZZZ', 'ZZZZZZ'):
-            if mn <= len(cand) <= mx and cand not in e.codes:
+        rivals = gen.rival_codes(seg) if is_qualifier(seg, e) else ()
+        for cand in ('Z', 'Q', 'X9', 'ZZ', 'QQ', 'ZZZ', 'QQQ', 'ZZZZ', 'ZZZZZ', 'ZZZZZZ', 'Q7', 'Z8Z'):
+            # a qualifier must not become the qualifier of a same-id sibling node: that would be another, valid, segment
+            if mn <= len(cand) <= mx and cand not in e.codes and cand not in rivals:
                 v = cand
                 break
         if v is not None and dt in ('ID', 'AN'):
